@@ -5,6 +5,8 @@ CONSTANTS
   Initials <- Init2
   Replies <- SubsetReplies
   Mins <- MinsAll
+  ValClasses = {0, 1, 2, 3, 4}
+  VModes = {0, 1, 2, 3}
   Orig = FALSE
   MaxReply = 4
   MaxInitLen = 3
